@@ -56,6 +56,12 @@ def _multi():
     out.append(("multi:abstract", ("ds", "user", {"params": [ab]}), [A3, ("D", [ABSENT, "x", "zz"])]))
     sw = ("switch", inner, [(("inner", 1), ("ds", "b1", {"params": [("opt", "B")]}))], None)
     out.append(("multi:switch-on-dataset", ("cached", sw, "c"), [A3, B3]))
+    # branch keys of different types (1 / 'a' / None), failures below the switch, a consumer above it
+    smx = ("switch", ("optkey", "D"), [(1, inner), ("a", ("ds", "b1", {"params": [("opt", "B")]})), (None, ("opt", "B"))], None)
+    out.append(("multi:mixed-key switch below a consumer", ("ds", "user", {"params": [smx]}), [A3, B3, ("D", [ABSENT, 1, "a", None, "zz"])]))
+    out.append(("multi:mixed-key switch in a coalesce", ("coalesce", [("apply", smx, ("fn", "f")), ("val", "fallback")]), [A3, B3, ("D", [ABSENT, 1, "a", "zz"])]))
+    mo = ("ds", "mo", {"params": [("opt", "A")], "dispatch": ("optkey", "D"), "overloads": [(2, ("opt", "B")), ("fast", ("ds", "b1", {"params": [("opt", "B")]}))]})
+    out.append(("multi:mixed-alias overloads below a consumer", ("ds", "user", {"params": [mo]}), [A3, B3, ("D", [ABSENT, 2, "fast", "zz"])]))
     cs = ("case", inner, [(("fn", "p_eq:('inner', 1)"), ("ds", "b1", {"params": [("opt", "B")]}))], None)
     out.append(("multi:case-no-default", ("cached", cs, "c"), [A3, B3]))
     co = ("coalesce", [inner, ("ds", "b1", {"params": [("opt", "B")]})])
